@@ -31,7 +31,14 @@ Cat == <<
   E("l", "value", "B", "list", 4),    E("l", "value", "P", "list", 10),   E("l", "max", "P", "int", 12),
   E("l", "max", "P", "int", 2),
   E("k", "value", "P", "bytes", 4),   E("k", "value", "P", "bytes", 12),  E("k", "max", "P", "int", 16),
-  E("k", "max", "P", "int", 2),       E("k", "value", "B", "str", 6) >>
+  E("k", "max", "P", "int", 2),       E("k", "value", "B", "str", 6),
+  \* default / constant / group (also through Group(...)) / module not exported / main unit / failing driver write
+  E("a", "default", "P", "int", 14),  E("a", "default", "P", "str", 0),   E("a", "default", "P", "int", 300),
+  E("b", "default", "P", "float", 8), E("a", "constant", "P", "int", 14), E("a", "constant", "P", "str", 0),
+  E("s", "default", "P", "str", 24),
+  E("a", "group", "P", "str", 1),     E("b", "group", "G", "str", 2),     E("a", "group", "G", "str", 2),
+  E("export", "value", "B", "bool", 0), E("value", "unit", "P", "str", 1), E("value", "unit", "P", "int", 4),
+  E("n", "unit", "P", "str", 1),      E("n", "value", "B", "float", 13),  E("n", "value", "B", "float", 15) >>
 BaseEntries == {E("mp", "value", "B", "int", 6), E("n", "value", "B", "int", 10)}
 
 Chosen == {Cat[j] : j \in sel}
